@@ -34,7 +34,37 @@ func main() {
 	)
 	extra := flag.String("extra", "", "JSON object merged into the evidence coverage (results of the variant sweep)")
 	genV := flag.String("gen-variants", "", "write single-edit variants of the library sources of -repo into this directory and exit")
+	sweepDir := flag.String("sweep", "", "analyse every variant directory under this directory in-process (overlay on -repo); with -p")
+	shard := flag.String("shard", "0/1", "i/n: analyse only every n-th variant starting at i")
 	flag.Parse()
+	if *sweepDir != "" {
+		ids := []string{*prop}
+		if *prop == "all" || *prop == "" {
+			ids = nil
+			for id := range props {
+				ids = append(ids, id)
+			}
+			sort.Strings(ids)
+		}
+		known := map[string]bool{}
+		if ks, err := loadKnown(filepath.Join(*verif, "known_findings.json")); err == nil {
+			for _, k := range ks {
+				if k.Status == "known" {
+					known[k.Key] = true
+				}
+			}
+		}
+		var si, sn int
+		fmt.Sscanf(*shard, "%d/%d", &si, &sn)
+		if sn < 1 {
+			sn = 1
+		}
+		if err := sweepInProcess(*repo, *sweepDir, ids, si, sn, known); err != nil {
+			fmt.Println(err)
+			os.Exit(2)
+		}
+		return
+	}
 	if *genV != "" {
 		if err := genVariants(*repo, *genV); err != nil {
 			fmt.Println(err)
